@@ -32,6 +32,7 @@ type Config struct {
 	Samples         int
 	StopAfterViol   int
 	NoIfConv        bool
+	NoSymPtr        bool
 }
 
 func DefaultConfig() Config {
